@@ -251,8 +251,11 @@ def run_case(case, work, rec):
                 for b2 in range(len(mm.boxes[l2])):
                     t = mm.data[l2][b2][..., fidx][gen.uncovered_mask(mm, l2, b2, mm.nlevels - 1)] * dV
                     tot += float(np.sum(t)); mag += float(np.sum(np.abs(t)))
-            finite = np.isfinite(tot) and np.isfinite(mag)
-            if finite and not abs(got - tot) <= 1e-10 * mag:
+            # judged when no intermediate sum can overflow; absolute slack for sums of denormals (the
+            # tool multiplies the sum by the cell volume, the model every term: each product rounds
+            # to the denormal grid)
+            finite = np.isfinite(tot) and np.isfinite(mag) and mag / min(1.0, dV) < 1e290
+            if finite and not abs(got - tot) <= 1e-10 * mag + 1e-300:
                 probs.append(f"pestle integral of the final plotfile {got!r} != {tot!r}")
             from amr_kitchen.mandoline import Mandoline
             sl = Mandoline(cur, fields=[fname], serial=True, verbose=0).slice(normal=2, pos=None, fformat="return")
